@@ -73,8 +73,10 @@ pub fn check(c: &Case, stats: &mut Stats) -> CheckResult {
     let contents: Vec<BTreeSet<u32>> = c.sets.iter().map(|s| s.iter().copied().collect()).collect();
     let mut all = BTreeSet::new();
     for s in &contents {
-        ensure!(!s.is_empty() && s.iter().all(|t| (1..=NT).contains(t) && all.insert(*t)), "harness/bad-case", "input sets must be non-empty, disjoint, over 1..=96");
+        ensure!(s.iter().all(|t| (1..=NT).contains(t) && all.insert(*t)), "harness/bad-case", "input sets must be disjoint, over 1..=96");
     }
+    // at most one empty input (two would be indistinguishable for the table lookup by content)
+    ensure!(contents.iter().filter(|s| s.is_empty()).count() <= 1, "harness/bad-case", "at most one empty input set");
     let by_content: BTreeMap<BTreeSet<u32>, usize> = contents.iter().enumerate().map(|(i, s)| (s.clone(), i)).collect();
     let method = c.method;
     let mname = METHODS[method as usize];
@@ -225,6 +227,9 @@ pub fn check(c: &Case, stats: &mut Stats) -> CheckResult {
     if c.sets.iter().any(|s| s.len() > 1) {
         stats.label("multi-term-inputs");
     }
+    if c.sets.iter().any(|s| s.is_empty()) {
+        stats.label("empty-input-set");
+    }
     if n >= 4 && joined_two_clusters {
         stats.label("nontrivial");
         stats.nontrivial(hash_json(c));
@@ -252,6 +257,11 @@ fn strategy(tier: Tier) -> BoxedStrategy<Case> {
                     }
                 }
                 sets.push(s);
+            }
+            // one input in ten cases is the empty set
+            if extra[0] % 10 == 0 {
+                let j = (extra[1] as usize * 7 + extra[2] as usize) % n;
+                sets[j].clear();
             }
             // symmetric table; distinct values unless `coarse` (then ties are frequent)
             let mut table = vec![0.0f32; n * n];
@@ -289,7 +299,7 @@ impl Property for C17 {
         "C17"
     }
     fn rule(&self) -> String {
-        "Generated: n in 2..=24 (thorough 40) pairwise disjoint input sets (mostly singletons, some with 2-3 terms) over a flat 96-term ontology; for single/complete/average a generated symmetric table of initial distances (distinct values, or few values so that ties are frequent; shifted so that distances are all positive, mixed-sign, all negative or touch zero); for union a symmetric pseudo-random distance that is a function of the two sets' contents, so merged sets get fresh values. Oracle = validity predicate simulated along the library's own merge choices (ties admit several dendrograms): exactly n-1 merges; each merge joins two live, different clusters (inputs or earlier merges n+k), so every input and intermediate cluster is merged exactly once and one cluster remains; the reported distance equals the pair's current distance bit for bit and no live pair is strictly closer; distances to the new cluster follow the method (min / max / mean of the two parts in f32 / content function of the union); len adds up and is n at the last merge; indicies() is a permutation of 0..n; cluster(), iter(), &linkage and into_cluster() agree; the first callback invocation asks every unordered pair of inputs exactly once (later invocations, which also pair the new set with itself, are not constrained). evaluations = clusterings. Non-trivial = n >= 4 and some merge joins two earlier clusters; distinct by hash of the case.".into()
+        "Generated: n in 2..=24 (thorough 40) pairwise disjoint input sets (mostly singletons, some with 2-3 terms, in one case of ten one input is the empty set) over a flat 96-term ontology; for single/complete/average a generated symmetric table of initial distances (distinct values, or few values so that ties are frequent; shifted so that distances are all positive, mixed-sign, all negative or touch zero); for union a symmetric pseudo-random distance that is a function of the two sets' contents, so merged sets get fresh values. Oracle = validity predicate simulated along the library's own merge choices (ties admit several dendrograms): exactly n-1 merges; each merge joins two live, different clusters (inputs or earlier merges n+k), so every input and intermediate cluster is merged exactly once and one cluster remains; the reported distance equals the pair's current distance bit for bit and no live pair is strictly closer; distances to the new cluster follow the method (min / max / mean of the two parts in f32 / content function of the union); len adds up and is n at the last merge; indicies() is a permutation of 0..n; cluster(), iter(), &linkage and into_cluster() agree; the first callback invocation asks every unordered pair of inputs exactly once (later invocations, which also pair the new set with itself, are not constrained). evaluations = clusterings. Non-trivial = n >= 4 and some merge joins two earlier clusters; distinct by hash of the case.".into()
     }
     fn assumptions(&self) -> Vec<String> {
         vec![
@@ -304,7 +314,7 @@ impl Property for C17 {
         }
     }
     fn required_labels(&self, _tier: Tier) -> Vec<&'static str> {
-        vec!["nontrivial", "single", "complete", "average", "union", "tie", "multi-term-inputs", "all-merge-distances-negative", "mixed-sign-distances"]
+        vec!["nontrivial", "single", "complete", "average", "union", "tie", "multi-term-inputs", "empty-input-set", "all-merge-distances-negative", "mixed-sign-distances"]
     }
     fn run_generated(&self, tier: Tier, seed: u64, n: u64, stats: &mut Stats) -> Option<(Value, Failure)> {
         run_typed(strategy(tier), seed, n, stats, check)
